@@ -287,6 +287,7 @@ func report(cfg *runConfig, cs *ContractSet, out *genOutput, results []*OblResul
 		"vacuity": map[string]any{"cover_checks": nCover, "cover_unreachable": coverWarn},
 		"obligation_names": names, "real_mode_obligations": realMode,
 		"translation_errors": out.errs, "binding_errors": out.binds,
+		"preconditions_unverified_at_callers": out.callers,
 		"undischarged_known_findings": nKnown, "violations_reported": nViol,
 		"timeout_s": cfg.timeout,
 	}
